@@ -8,6 +8,10 @@ ROOT = os.path.dirname(os.path.dirname(os.path.abspath(__file__)))
 
 # id -> (engine, category, technique, text, note, design_ref)
 CHECKS = {
+    "C12": dict(engine="sched", category="model_checking", design_ref="DESIGN.md section 7 C12",
+        technique="stateless preemption-bounded exploration of all thread interleavings of the real assemblers under a cooperative scheduler over a sync shim (import rewrite via go build -overlay), iterating the bound 0,1,2[,3]",
+        text="Six scenarios (first packets of both directions racing; same-direction first-packet race; close + free-list reuse against a stale lookup; flusher against assembler; out-of-order against in-order feeder; three assemblers) with 2-3 assemblers on one shared pool and keys forced to collide are executed, for tcpassembly and reassembly separately, under every schedule with at most 2 [thorough 3] preemptions, scheduling points before every Mutex/RWMutex operation and inside the stream callbacks. Per execution: no panic, deadlock or livelock; callbacks of one stream never overlap and never follow its completion; bytes only reach the stream of their own connection; directions fed by one assembler satisfy the C09/C10 order oracle; both directions share one live entry (reassembly); every kept stream completed exactly once after a final flush.",
+        note="Trusted: the vsync shim models Mutex/RWMutex/Pool faithfully except writer preference; sequential consistency. Data races are looked for by a separate free-running -race pass of the same scenarios (supplementary, not exhaustive)."),
     "C11": dict(engine="statex", category="model_checking", design_ref="DESIGN.md section 7 C11",
         technique="exhaustive enumeration of Assemble/Flush histories over several connections, directions, RST, age-flush cut-offs and page limits on both real assemblers (one binary each), with a lifecycle/buffering monitor reading private state through injected accessors",
         text="For tcpassembly and reassembly separately: every history of the stated length over three alphabets (one direction of a 4-byte stream with every segment, FIN, RST and four age-flush cut-offs; two connections x two directions of 2-byte streams with FlushAll in the middle; multi-page packets of 2-3 pages) followed by FlushAll, for every page-limit setting (and, for reassembly, stream behaviours KeepFrom on/off x accepts/declines removal). Monitor after every step: completion at most once, no data after it; page limits exceeded by at most the packet in hand; an age flush leaves no (half) connection waiting on data older than the cut-off and forces out nothing newer; after FlushAll: exactly one completion per stream, no connection left whose stream accepted removal, zero pages in use.",
